@@ -687,7 +687,11 @@ fn sc_c11(seed: u64, thorough: bool) -> Vec<Scenario> {
         verf: Vec::new(),
         args: Vec::new(),
     };
-    let streams: Vec<(&str, Vec<u8>)> = vec![("http-crlf", http1), ("http-lf", http2), ("rpc-dump", call.encode_tcp())];
+    // requests that are not answered must not be answered under any segmentation either: a bare CR
+    // inside a header name, a header line without colon
+    let http3 = b"GET / HTTP/1.1\r\nHo\rst: x\r\n\r\n".to_vec();
+    let http4 = b"GET / HTTP/1.1\r\nHost x\r\nA: b\r\n\r\n".to_vec();
+    let streams: Vec<(&str, Vec<u8>)> = vec![("http-crlf", http1), ("http-lf", http2), ("rpc-dump", call.encode_tcp()), ("http-cr-in-name", http3), ("http-no-colon", http4), ("http-folded", b"GET / HTTP/1.1\r\nX-Note: first\r\n\tsecond\r\n\r\n".to_vec())];
     for (name, s) in streams {
         let n = s.len();
         let mut comps: Vec<Vec<usize>> = (1..n).map(|a| vec![a]).collect();
